@@ -49,10 +49,12 @@ open MdVerif.Generated.Census
 
 /-! ## C11: instance state -/
 
-/-- `Markdown.reset` is the three statements the model assumes -/
+/-- `Markdown.reset` is the four statements the model assumes (the third one, clearing the block parser's nesting
+    state, was added by the repair of F-C11-1) -/
 theorem C11_reset_calls : resetCalls =
     ["self.htmlStash.reset()",
      "self.references.clear()",
+     "self.parser.state.clear()",
      "for extension in self.registeredExtensions: if hasattr(extension, 'reset'): extension.reset()"] := by decide +kernel
 
 /-- is the `reset` method of class `c` run by `Markdown.reset()`? -/
@@ -70,7 +72,7 @@ def resetFields : List (String × String) :=
 theorem C11_reset_fields : resetFields =
     [("AbbrExtension", "abbrs"), ("FootnoteExtension", "footnotes"), ("FootnoteExtension", "found_refs"),
      ("FootnoteExtension", "used_refs"), ("HtmlStash", "html_counter"), ("HtmlStash", "rawHtmlBlocks"),
-     ("Markdown", "references"), ("Markdown", "Meta"), ("Markdown", "toc"), ("Markdown", "toc_tokens")] := by decide +kernel
+     ("BlockParser", "state"), ("Markdown", "references"), ("Markdown", "Meta"), ("Markdown", "toc"), ("Markdown", "toc_tokens")] := by decide +kernel
 
 /-- (owner, attribute, `Class.method` that holds the re-initialising assignment).
     Each is assigned unconditionally by the conversion before anything reads it. -/
